@@ -49,6 +49,7 @@ type job struct {
 	Wa, Wz string   // or: explicit texts (hand-written pair), run through api.RunCode (func main / 函数·主控)
 	Must   []string // spellings the Chinese text has to contain
 	Strict bool     // no tolerance for the 皮囊/空 type-string defect
+	Side   string   // "" = both sides in one process; "wa" / "wz" = only that side (used after a process died)
 }
 
 type sideRes struct {
@@ -287,8 +288,12 @@ func handleJob(raw json.RawMessage) interface{} {
 				out.MissingMust = m
 			}
 		}
-		out.Wa = runSide("p.wa", wa, j.N, j.Strict)
-		out.Wz = runSide("p.wz", wz, j.N, j.Strict)
+		if j.Side != "wz" {
+			out.Wa = runSide("p.wa", wa, j.N, j.Strict)
+		}
+		if j.Side != "wa" {
+			out.Wz = runSide("p.wz", wz, j.N, j.Strict)
+		}
 		return out
 	}
 	out.WaText, out.WzText = j.Wa, j.Wz
@@ -611,6 +616,33 @@ func main() {
 		}
 		sres := make([]jobRes, len(sjobs))
 		runJobs(r, pool, sjobs, sres)
+		// a single-item program that kills the worker (logger.Fatal in the back end) is run again
+		// one side per process, so that a crash of one front end cannot hide behind the other
+		var again []int
+		for i := range sres {
+			if strings.HasPrefix(sres[i].Wa.CompileErr, "worker ") {
+				again = append(again, i)
+			}
+		}
+		if len(again) > 0 {
+			ajobs := make([]job, 0, 2*len(again))
+			for _, i := range again {
+				ja, jz := sjobs[i], sjobs[i]
+				ja.Side, jz.Side = "wa", "wz"
+				ajobs = append(ajobs, ja, jz)
+			}
+			ares := make([]jobRes, len(ajobs))
+			runJobs(r, pool, ajobs, ares)
+			for k, i := range again {
+				a, z := ares[2*k], ares[2*k+1]
+				m := a
+				m.Wz = z.Wz
+				if m.WzText == "" {
+					m.WzText = z.WzText
+				}
+				sres[i] = m
+			}
+		}
 		for i, u := range singles {
 			it := u.g.Items[u.items[0]]
 			res := sres[i]
